@@ -15,6 +15,7 @@ import RFV.Model.Exec
 import RFV.Model.Ops
 import RFV.Model.MulRem
 import RFV.Model.Loops
+import RFV.Gen.Butterflies
 
 open RFV
 
@@ -237,6 +238,19 @@ def answer (line : String) : String :=
           c.text ++ (if c.scratch.len < c.need s0 s1 then " STARVED" else "")))
       | _, _ => "bad-op"
     | _ => "bad-op"
+  | "bflyrun" :: n :: dir :: p :: g :: w :: vals =>
+    -- K12: the extracted program of Butterfly{n} run over GF(p), constants cos(2π a / grid) = cosE on the field's grid g
+    match n.toNat?, p.toNat?, g.toNat?, w.toNat? with
+    | some n, some p, some g, some w =>
+      match Gen.allButterflies.find? (fun P => P.n == n && P.inverse == (dir == "inv")) with
+      | none => "no-such-butterfly"
+      | some P =>
+        if !(gpParamsOk p g w) || g % P.grid != 0 then "BAD-FIELD-PARAMETERS" else
+        let vs := vals.filterMap (fun (s : String) => s.toNat?)
+        let cs : Nat → Zp p := fun a => ⟨cosE p g w (a * (g / P.grid))⟩
+        let x : Nat → Zp p := fun j => ⟨vs.getD j 0 % p⟩
+        " ".intercalate ((P.outputs cs x).map (fun (z : Zp p) => toString z.v))
+    | _, _, _, _ => "bad-op"
   | ["mulrem", a, b, d] =>
     match a.toNat?, b.toNat?, d.toNat? with
     | some a, some b, some d => mulRemLine a b d
